@@ -123,15 +123,60 @@ def run(entries, acts=None):
     bygid = {}
     for ln in lines:
         bygid.setdefault(ln.split(' ', 1)[0], []).append(ln)
+    # end to end: the model run from the bytes of the same file (lexer, parser, visitor, grammar object, tables)
+    etext = []
+    for k, ((name, p, g), d) in enumerate(zip(entries, dumps)):
+        if d.get('ok'):
+            etext.append('E e%d %s\n' % (k, open(p, 'rb').read().hex()))
+    elines = vlib.model_eval_chunks(etext) if etext else []
+    byeid = {}
+    for ln in elines:
+        byeid.setdefault(ln.split(' ', 1)[0], []).append(ln)
     res = {}
-    for (name, p, g), d in zip(entries, dumps):
+    for k, ((name, p, g), d) in enumerate(zip(entries, dumps)):
         if not d.get('ok'):
             res[name] = (d, None, None, None)
             continue
         m = vlib.parse_model_tables(bygid.get(ids[name], []), ids[name])
         diffs, v, info = compare(d, m)
+        el = byeid.get('e%d' % k, [])
+        verdict = next((l.split()[2] for l in el if l.split()[1] == 'e2e'), 'missing')
+        if verdict != 'ok':
+            diffs.append(('I1', 'end to end: the model built from the same text says %s, the implementation builds the grammar' % verdict))
+        else:
+            me = vlib.parse_model_tables(el, 'e%d' % k)
+            ediffs, _, _ = compare(d, me)
+            have = set(diffs)
+            for (itf, what) in ediffs:
+                if (itf, what) not in have:
+                    diffs.append((itf, 'end to end (model from the text of the file): ' + what))
         res[name] = (d, m, diffs, v)
     return res
+
+
+def e2e_diffs(names, paths, dumps):
+    """The model run from the bytes of each file against the implementation's dump: list of (name, interface, what)."""
+    etext = []
+    for k, d in enumerate(dumps):
+        if d.get('ok'):
+            etext.append('E e%d %s\n' % (k, open(paths[k], 'rb').read().hex()))
+    elines = vlib.model_eval_chunks(etext) if etext else []
+    byeid = {}
+    for ln in elines:
+        byeid.setdefault(ln.split(' ', 1)[0], []).append(ln)
+    out = []
+    for k, d in enumerate(dumps):
+        if not d.get('ok'):
+            continue
+        el = byeid.get('e%d' % k, [])
+        verdict = next((l.split()[2] for l in el if l.split()[1] == 'e2e'), 'missing')
+        if verdict != 'ok':
+            out.append((names[k], 'I1', 'end to end: the model built from the same text says %s, the implementation builds the grammar' % verdict))
+            continue
+        ediffs, _, _ = compare(d, vlib.parse_model_tables(el, 'e%d' % k))
+        for (itf, what) in ediffs:
+            out.append((names[k], itf, 'end to end (model from the text of the file): ' + what))
+    return out
 
 
 if __name__ == '__main__':
